@@ -8,6 +8,7 @@ import (
 	"errors"
 	"fmt"
 	"log/slog"
+	"os"
 	"runtime"
 	"strings"
 	"sync"
@@ -654,7 +655,75 @@ func TestC10Fields(t *testing.T)     { rapid.Check(t, propC10Fields) }
 func TestC10Concurrent(t *testing.T) { rapid.Check(t, propC10Concurrent) }
 func TestC10Sinks(t *testing.T)      { rapid.Check(t, propC10Sinks) }
 
+// c10SliceStringer is a Stringer on an UNCOMPARABLE struct type (it holds a slice) whose String panics.
+type c10SliceStringer struct{ hops []string }
+
+func (r c10SliceStringer) String() string {
+	if len(r.hops) == 0 {
+		panic("route without hops")
+	}
+	return strings.Join(r.hops, "->")
+}
+
+// The DEFAULT error output (no ErrorOutput option) is the process's standard error as it is when the logger is
+// built - for every constructor that does not say otherwise.
+func c10DefaultErrorOutput(t *testing.T) {
+	dir := os.Getenv("VERIF_WORKDIR")
+	if dir == "" {
+		dir = os.TempDir()
+	}
+	f, err := os.CreateTemp(dir, "c10-stderr-*")
+	if err != nil {
+		t.Fatalf("VERIF-INCONCLUSIVE %v", err)
+	}
+	defer os.Remove(f.Name())
+	defer f.Close()
+	seen, syncs := []string{}, 0
+	broken := failCore{name: "broken", script: []bool{true, true, true, true}, seen: &seen, syncs: &syncs}
+	healthy, logs := observer.New(zapcore.DebugLevel)
+	old := os.Stderr
+	os.Stderr = f
+	loggers := map[string]*zap.Logger{
+		"zap.New(core)":             zap.New(zapcore.NewTee(broken, healthy)),
+		"zap.New(core).With.Named":  zap.New(zapcore.NewTee(broken, healthy)).With(zap.Int("k", 1)).Named("n"),
+		"zap.NewExample + WrapCore": zap.NewExample(zap.WrapCore(func(zapcore.Core) zapcore.Core { return zapcore.NewTee(broken, healthy) })),
+	}
+	os.Stderr = old
+	for name, lg := range loggers {
+		before, _ := os.ReadFile(f.Name())
+		lg.Info("entry")
+		after, _ := os.ReadFile(f.Name())
+		if rep := string(after[len(before):]); !strings.Contains(rep, "write error") || !strings.Contains(rep, "corefail-broken") {
+			t.Fatalf("%s: a core failed and the logger has no ErrorOutput option: the report belongs on the standard error of the time the logger was built, which received %q", name, rep)
+		}
+	}
+	if logs.Len() != len(loggers) {
+		t.Fatalf("the healthy core received %d of %d entries", logs.Len(), len(loggers))
+	}
+}
+
 func TestRegressC10(t *testing.T) {
+	c10DefaultErrorOutput(t)
+	// Stringers over an uncomparable element type whose String panics: contained like any other
+	{
+		sink := &memSink{}
+		lg := zap.New(zapcore.NewCore(zapcore.NewJSONEncoder(zapcore.EncoderConfig{MessageKey: "m"}), sink, zapcore.DebugLevel))
+		func() {
+			defer func() {
+				if p := recover(); p != nil {
+					t.Fatalf("Stringers over an uncomparable element type: the panic of an element's String escaped the log call: %v", p)
+				}
+			}()
+			lg.Info("routes", zap.Int("before", 1), zap.Stringers("routes", []c10SliceStringer{{hops: []string{"a", "b"}}, {}}), zap.Int("after", 2))
+		}()
+		if len(sink.writes) != 1 {
+			t.Fatalf("Stringers over an uncomparable element type: %d lines", len(sink.writes))
+		}
+		line := string(sink.writes[0])
+		if why, _ := checkJSONLine(sink.writes[0], "\n"); why != "" || !strings.Contains(line, `"routes":["a->b"`) || !strings.Contains(line, `"routesError":"PANIC=`) || !strings.Contains(line, `"after":2`) {
+			t.Fatalf("Stringers with a panicking element of an uncomparable type: %s %s", why, line)
+		}
+	}
 	// F9: nil / panicking element in zap.Stringers must not escape the log call
 	sink := &memSink{}
 	lg := zap.New(zapcore.NewCore(zapcore.NewJSONEncoder(zapcore.EncoderConfig{MessageKey: "m"}), sink, zapcore.DebugLevel))
